@@ -130,12 +130,12 @@ def worker(arg):
 
 def check(tier, seed):
     t = pc.trees("plain", "san")
-    n = 240 if tier == "quick" else 2400
-    nsan = 16 if tier == "quick" else 160
+    n = 240 if tier == "quick" else 1200
+    nsan = 16 if tier == "quick" else 80
     res = Result("exploration")
     res.rule = RULE
     base = seed * 1000000 + (0 if tier == "quick" else 50000) + 220000
-    ncomp = 4 if tier == "quick" else 48
+    ncomp = 4 if tier == "quick" else 16
     recs = runner.pmap(worker, [(base + 900000 + i, t["plain"], True) for i in range(ncomp)] + [(base + i, t["plain"]) for i in range(n)] +
                        [(base + n + i, t["san"]) for i in range(nsan)], nproc=6)
     pc.collect("C22", recs, res)
